@@ -6,10 +6,43 @@ pub struct EnumSet<T> { pub bits: u8, pub _p: core::marker::PhantomData<T> }
 pub open spec fn flag_bit(f: DeclarationFlag) -> u8 {
 	match f { DeclarationFlag::Public => 1u8, DeclarationFlag::External => 2u8, DeclarationFlag::Main => 4u8, DeclarationFlag::Forward => 8u8, DeclarationFlag::OpaqueStruct => 16u8 }
 }
+// membership, kept abstract for the solver (closed): the parser unit reasons about `has`, never about bit patterns;
+// lemma_has_* below PROVE (bit_vector) that the membership facts stated on the operations follow from their bit facts
+pub closed spec fn has(s: EnumSet<DeclarationFlag>, f: DeclarationFlag) -> bool { s.bits & flag_bit(f) != 0 }
 impl EnumSet<DeclarationFlag> {
-	#[verifier::external_body] pub fn new() -> (r: Self) ensures r.bits == 0 { unimplemented!() }
+	#[verifier::external_body] pub fn new() -> (r: Self) ensures r.bits == 0, forall|g: DeclarationFlag| !(has(r, g)) { unimplemented!() }
 	#[verifier::external_body] pub fn from(f: DeclarationFlag) -> (r: Self) ensures r.bits == flag_bit(f) { unimplemented!() }
 	#[verifier::external_body] pub fn difference(&self, o: Self) -> (r: Self) ensures r.bits == self.bits & !o.bits { unimplemented!() }
-	#[verifier::external_body] pub fn insert(&mut self, f: DeclarationFlag) -> (r: bool) ensures final(self).bits == old(self).bits | flag_bit(f) { unimplemented!() }
-	#[verifier::external_body] pub fn contains(&self, f: DeclarationFlag) -> (r: bool) ensures r == (self.bits & flag_bit(f) != 0) { unimplemented!() }
+	#[verifier::external_body] pub fn insert(&mut self, f: DeclarationFlag) -> (r: bool)
+		ensures final(self).bits == old(self).bits | flag_bit(f), forall|g: DeclarationFlag| has(*final(self), g) == (has(*old(self), g) || g == f) { unimplemented!() }
+	#[verifier::external_body] pub fn contains(&self, f: DeclarationFlag) -> (r: bool) ensures r == has(*self, f) { unimplemented!() }
+}
+proof fn lemma_has_new(g: DeclarationFlag) ensures 0u8 & flag_bit(g) == 0 { let b = flag_bit(g); assert(0u8 & b == 0) by (bit_vector); }
+proof fn lemma_has_insert(x: u8, f: DeclarationFlag, g: DeclarationFlag)
+	ensures ((x | flag_bit(f)) & flag_bit(g) != 0) == ((x & flag_bit(g) != 0) || g == f)
+{
+	let a = flag_bit(f); let b = flag_bit(g);
+	assert((a == 1 || a == 2 || a == 4 || a == 8 || a == 16) && (b == 1 || b == 2 || b == 4 || b == 8 || b == 16) ==>
+		(((x | a) & b != 0) == ((x & b != 0) || a == b))) by (bit_vector);
+}
+// further enumset operations (not used by the pinned code; declared so that a change which uses them is judged by the
+// contracts instead of being rejected by the type checker)
+impl EnumSet<DeclarationFlag> {
+	#[verifier::external_body] pub fn is_empty(&self) -> (r: bool) ensures r == (self.bits == 0) { unimplemented!() }
+	#[verifier::external_body] pub fn remove(&mut self, f: DeclarationFlag) -> (r: bool) ensures final(self).bits == old(self).bits & !flag_bit(f) { unimplemented!() }
+	#[verifier::external_body] pub fn only(f: DeclarationFlag) -> (r: Self) ensures r.bits == flag_bit(f) { unimplemented!() }
+}
+impl PartialEq<DeclarationFlag> for EnumSet<DeclarationFlag> {
+	#[verifier::external_body] fn eq(&self, o: &DeclarationFlag) -> bool { unimplemented!() }
+}
+impl vstd::std_specs::cmp::PartialEqSpecImpl<DeclarationFlag> for EnumSet<DeclarationFlag> {
+	open spec fn obeys_eq_spec() -> bool { true }
+	open spec fn eq_spec(&self, o: &DeclarationFlag) -> bool { self.bits == flag_bit(*o) }
+}
+impl PartialEq for EnumSet<DeclarationFlag> {
+	#[verifier::external_body] fn eq(&self, o: &Self) -> bool { unimplemented!() }
+}
+impl vstd::std_specs::cmp::PartialEqSpecImpl for EnumSet<DeclarationFlag> {
+	open spec fn obeys_eq_spec() -> bool { true }
+	open spec fn eq_spec(&self, o: &Self) -> bool { self.bits == o.bits }
 }
